@@ -221,7 +221,7 @@ def run(ctx):
     from ..rules import guard as G9
     P9 = ctx.program_of(UNIT)
     m9 = ctx.ir(UNIT)
-    hm = [f_ for f_ in m9.functions.values() if re.match(r'^rtosc::AutomationMgr::handleMidi\(', P9.dm(f_.name))]
+    hm = [f_ for f_ in m9.functions.values() if re.match(r'^rtosc::AutomationMgr::handleMidi\(', P9.dm(f_.name)) and "::$_" not in P9.dm(f_.name) and "{lambda" not in P9.dm(f_.name)]
     ctx.require(len(hm) == 1, "R19.9: IR of AutomationMgr::handleMidi not found")
     hm = hm[0]
     # the variable stored into midi_cc / midi_nrpn
@@ -233,13 +233,21 @@ def run(ctx):
             if l.get("kind") == "MemberExpr" and l.get("name") in ("midi_cc", "midi_nrpn") and A.ref_id(A.kids(x)[1]):
                 src_ids.add(A.ref_id(A.kids(x)[1]))
     ctx.require(len(src_ids) == 1, "R19.9: the controller number bound to a learning slot is not one local variable (%d)" % len(src_ids))
-    idname = u.by_id[src_ids.pop()].get("name")
+    iddecl9 = u.by_id[src_ids.pop()]
+    idname = iddecl9.get("name")
     slot9 = FL9.slot_of_local(hm, idname)
     ctx.require(slot9 is not None, "R19.9: local `%s` not found in the IR of handleMidi" % idname)
     st9 = [i_ for i_ in hm.insts() if i_.op == "store" and G9.parse_store(i_)[1] == slot9]
-    ctx.require(len(st9) >= 2, "R19.9: assignments of `%s` not found" % idname)
-    init9 = st9[0]
-    assigns9 = st9[1:]
+    if iddecl9.get("kind") == "VarDecl" and A.kids(iddecl9):
+        # declared with an initialiser: the first store is that initial value, the others assign from the message
+        ctx.require(len(st9) >= 2, "R19.9: assignments of `%s` not found" % idname)
+        init9 = st9[0]
+        assigns9 = st9[1:]
+    else:
+        # declared without one: every store is an assignment; the paths start where the function starts
+        ctx.require(len(st9) >= 1, "R19.9: assignments of `%s` not found" % idname)
+        init9 = hm.blocks[0].insts[0]
+        assigns9 = st9
     loads9 = {i_.res for i_ in hm.insts() if i_.op == "load" and G9.parse_load(i_) == slot9}
     binds9 = [i_ for i_ in hm.insts() if i_.op == "store" and G9.parse_store(i_)[0] in loads9 and
               "AutomationSlot" in (hm.defs().get(G9.parse_store(i_)[1]).text if hm.defs().get(G9.parse_store(i_)[1]) is not None else "")]
